@@ -31,7 +31,10 @@ RULE = ("TLC enumerates every obstacle descriptor of MC_Occupancy.tla: dynamic o
         "(5 roles x 4 types), obstacles_by_position_intervals (3 x 3 intervals x 4 role sets x times 0, 1, 3).  Plus seeded "
         "random exact descriptors (longer trajectories, larger coordinates, gaps up to 5).  HISTORY: <<target, "
         "bystander>> x ONE public modification - obstacle / prediction / scenario.translate_rotate (3 lattice motions), "
-        "prediction.trajectory = another trajectory (2), prediction.shape = another shape (2), update_prediction (2) - "
+        "prediction.trajectory = another trajectory (2), prediction.shape = another shape (2), update_prediction (2), "
+        "update_initial_state(new pose at t0+1) alone / followed by update_prediction(trajectory | set-based), "
+        "obstacle.initial_state = new pose (same step; next step when there is a gap), obstacle.prediction = None | "
+        "trajectory | set-based - "
         "for trajectory targets (2 shapes x 2 (t0, gap) x 4 state kinds), set-based, no-prediction, static, phantom and "
         "environment targets; each executed cold (modify, query) and warm (query, modify, query): occupancy_at_time / "
         "state_at_time of the target, occupancies_at_time_step and obstacle_states_at_time_step for every t, two "
@@ -481,7 +484,11 @@ def _exec_sc(case):
 
 
 def _mutator(m):
-    return m["via"] + ".translate_rotate" if m["k"] == "move" else m["k"]
+    if m["k"] == "move":
+        return m["via"] + ".translate_rotate"
+    if m["k"] == "update_initial_state" and m["pred"]["k"] != "none":
+        return "update_initial_state+update_prediction"
+    return m["k"]
 
 
 def _apply(m, sc, ob, o):
@@ -502,6 +509,14 @@ def _apply(m, sc, ob, o):
         ob.prediction.shape = _shape(m["shape"])
     elif m["k"] == "update_prediction":
         ob.update_prediction(_prediction({"pred": m["pred"], "shape": o["shape"]}))
+    elif m["k"] == "set_prediction":
+        ob.prediction = _prediction({"pred": m["pred"], "shape": o["shape"]})           # None for "none"
+    elif m["k"] == "update_initial_state":
+        ob.update_initial_state(_state(m["state"]))
+        if m["pred"]["k"] != "none":
+            ob.update_prediction(_prediction({"pred": m["pred"], "shape": o["shape"]}))
+    elif m["k"] == "set_initial_state":
+        ob.initial_state = _state(m["state"])
     else:
         raise ValueError("unknown modification %r" % (m,))
 
@@ -552,6 +567,7 @@ def _exec_hist(case):
                 occ_event(o, t, {}, "/warm-up")
                 sc_occ_event(t, {}, "/warm-up")
             pos_event(t1, case["ivs"][1], case["ivs"][1], {}, "/warm-up")
+            pos_event(o["t0"], case["ivs"][1], case["ivs"][1], {}, "/warm-up")
         try:
             _apply(m, sc, ob, o)
         except Exception as ex:
@@ -576,8 +592,9 @@ def _exec_hist(case):
                 res = _exc(ex)
             ev.append({"op": "obstacle_states_at_time_step", "S": S, "m": m, "t": t, "res": res,
                        "sig": "obstacle_states_at_time_step" + suffix})
-        for iv in case["ivs"]:
-            pos_event(t1, iv, iv, mm, suffix)
+        for tq in sorted({t1, o2["t0"]}):                            # first predicted step and the (new) initial step
+            for iv in case["ivs"]:
+                pos_event(tq, iv, iv, mm, suffix)
     return {"ev": ev}
 
 
